@@ -22,7 +22,13 @@ import (
 	"github.com/hashicorp/serf/zzverif/vsched"
 )
 
-const Root = "/verif"
+// Root is the framework directory (VERIF_ROOT, default /verif).
+var Root = func() string {
+	if r := os.Getenv("VERIF_ROOT"); r != "" {
+		return r
+	}
+	return "/verif"
+}()
 
 // Check describes one property check.
 type Check struct {
